@@ -151,11 +151,14 @@ impl<T, N: ArrayLength> Iterator for GenericArrayIter<T, N> {
         // First consume values prior to the nth.
         let next_index = self.index + cmp::min(n, self.len());
 
-        unsafe {
-            ptr::drop_in_place(self.array.get_unchecked_mut(self.index..next_index));
-        }
-
+        // Advance first, so the skipped elements are no longer owned by the
+        // iterator if one of their destructors panics.
+        let skipped = self.index..next_index;
         self.index = next_index;
+
+        unsafe {
+            ptr::drop_in_place(self.array.get_unchecked_mut(skipped));
+        }
 
         self.next()
     }
@@ -211,11 +214,13 @@ impl<T, N: ArrayLength> DoubleEndedIterator for GenericArrayIter<T, N> {
     fn nth_back(&mut self, n: usize) -> Option<T> {
         let next_back = self.index_back - cmp::min(n, self.len());
 
-        unsafe {
-            ptr::drop_in_place(self.array.get_unchecked_mut(next_back..self.index_back));
-        }
-
+        // Same as `nth`: shrink first, then drop the skipped elements.
+        let skipped = next_back..self.index_back;
         self.index_back = next_back;
+
+        unsafe {
+            ptr::drop_in_place(self.array.get_unchecked_mut(skipped));
+        }
 
         self.next_back()
     }
